@@ -53,6 +53,9 @@ CHECKS = {
  "C18": ("exploration", "multiset / ordering / provenance monitor over the (record, error) sequence returned by the real Merger; fault injection at record boundaries; child-process isolation",
          "k sorted inputs with equal/disjoint/overlapping reference lists whose name order differs from header order are merged with the real Merger for all four sort orders and a custom less; the returned sequence is checked for exactly-once delivery (by SAM line), declared order in terms of the merged header, same-input order, re-linked Ref/MateRef, and error-before-EOF when an input fails at record n.",
          "Inputs are sorted consistently with the merged header order (otherwise no sorted merge exists).", "3 C18"),
+ "C19": ("exploration", "reference-model monitor: the generator's own record of bases and byte layout against NewIndex, WriteTo/ReadFrom and every SeqRange",
+         "Generated FASTA files over the stated layout space are indexed with the real NewIndex and compared with the layout the generator recorded while writing; the index is written and re-read; every (start,end) range of short sequences and sampled ranges of long ones are read through File with four buffer sizes and compared with the recorded bases.",
+         "Well-formed FASTA only (uniform line width per sequence, no quotes/tabs in names).", "3 C19"),
 }
 NOT_BUILT = "check not built yet in this session; see DESIGN.md section 3 for the planned monitor"
 
